@@ -108,6 +108,9 @@ func (w *walker) walk(v reflect.Value, depth int) {
 		if _, ok := t.FieldByName("sizeCache"); ok {
 			isProto = true
 		}
+		// the CA serial number is a counter stored in the index table, not a raft index
+		counterRow := t.Name() == "IndexEntry" && v.FieldByName("Key").IsValid() && v.FieldByName("Key").Kind() == reflect.String &&
+			v.FieldByName("Key").String() == "connect-ca-builtin-serial"
 		first := true
 		for i := 0; i < t.NumField(); i++ {
 			f := t.Field(i)
@@ -127,7 +130,7 @@ func (w *walker) walk(v reflect.Value, depth int) {
 			first = false
 			w.sb.WriteString(f.Name)
 			w.sb.WriteByte(':')
-			if isIndexField(t, f) {
+			if isIndexField(t, f) && !counterRow {
 				w.idx(fv.Uint())
 				continue
 			}
